@@ -440,3 +440,74 @@ Proof.
   intros H Hnd. destruct (static_new_spec _ _ _ _ _ _ _ H) as (_ & Hf & _ & Hall).
   split; [|cbn; now rewrite Hf]. unfold stored_ok. cbn. intros n f Hin. now apply Hall.
 Qed.
+
+(** * a mount whose identity changes after the composefs was built *)
+Lemma set_base_names n q l : map fst (set_base n q l) = map fst l.
+Proof.
+  unfold set_base. rewrite map_map. apply map_ext. intros [n' f]. cbn. now destruct (String.eqb n n').
+Qed.
+
+(** composefs root ([d_stored = None]): whatever the mounts' identities have become, the listing made NOW agrees with
+    Walk and GetAttr made afterwards — there is no table that could be stale *)
+Theorem compose_live_after_change s0 d n q' off cnt es s1 s2 e qw fw s3 s4 qg s5 :
+  NoDup (map fst (d_ents d)) -> d_stored d = None ->
+  dir_readdir s0 (dir_set_base n q' d) off cnt = (es, s1) -> In e es ->
+  extends s1 s2 -> dir_walk s2 (dir_set_base n q' d) (d_name e) = Some (qw, fw, s3) ->
+  extends s3 s4 -> getattr s4 fw = (qg, s5) ->
+  qw = d_qid e /\ qg = d_qid e /\ d_type e = q_type (d_qid e) /\ s5 = s4.
+Proof.
+  intros Hnd Hst Hr Hin He1 Hw He2 Hg.
+  eapply readdir_walk_getattr_agree with (d := dir_set_base n q' d); eauto.
+  - cbn. now rewrite set_base_names.
+  - unfold stored_ok. cbn. now rewrite Hst.
+Qed.
+
+(** ... whereas a root that answered Readdir from a table filled at mount time (and Walk/GetAttr live, as they must be:
+    they return the mounted File itself) disagrees as soon as one mount's version or path moves on *)
+Theorem mount_cache_refuted :
+  let d := mkDir [("log"%string, mkFile (mkQid 0 0 0) [(0, 0)%nat]); ("other"%string, mkFile (mkQid 0 0 0) [(0, 1)%nat])] None [] in
+  let '(dc, s0) := dir_cache_at_mount m_init d in
+  let q' := mkQid 0 1 0 in                                           (* the file's version moved on *)
+  let '(es, s1) := dir_readdir s0 (dir_set_base "log" q' dc) 0 10 in    (* listing from the table *)
+  match dir_walk s1 (dir_set_base "log" q' d) "log" with                (* Walk asks the mount *)
+  | Some (qw, _, _) => map d_qid (filter (fun e => String.eqb (d_name e) "log") es) = [qw]
+  | None => False
+  end -> False.
+Proof. vm_compute. intros H. discriminate H. Qed.
+
+(** * a directory seen through mount wrappers lists the same names at the same offsets as the plain Readdir *)
+Definition name_off (e : dirent) : string * N := (d_name e, d_off e).
+
+Lemma remap_entries_name_off m es : forall s es' s', remap_entries s m es = (es', s') -> map name_off es' = map name_off es.
+Proof.
+  induction es as [|d0 es IH]; intros s es' s' H; cbn in H.
+  - now inversion H.
+  - destruct (qid_for s m (d_qid d0)) as [q s1]. destruct (remap_entries s1 m es) as [r' s2] eqn:E2.
+    inversion H; subst. cbn. f_equal. eapply IH; eauto.
+Qed.
+
+Lemma remap_page_name_off ws : forall s es es' s', remap_page s ws es = (es', s') -> map name_off es' = map name_off es.
+Proof.
+  induction ws as [|m ws IH]; intros s es es' s' H; cbn in H.
+  - now inversion H.
+  - destruct (remap_entries s m es) as [es1 s1] eqn:E. rewrite (IH _ _ _ _ H). eapply remap_entries_name_off; eauto.
+Qed.
+
+Lemma number_from_name_off q q' l : forall start, map name_off (number_from q start l) = map name_off (number_from q' start l).
+Proof. induction l as [|n l IH]; intros start; cbn; [reflexivity|]. f_equal. apply IH. Qed.
+
+Lemma static_readdir_name_off q q' names off cnt :
+  map name_off (static_readdir q names off cnt) = map name_off (static_readdir q' names off cnt).
+Proof. unfold static_readdir. destruct (lenN names <=? off); [reflexivity|]. apply number_from_name_off. Qed.
+
+(** whatever the wrappers, the stored table or the mounts' answers: one Readdir call on a (mounted) staticfs or composefs
+    directory returns, name for name and Offset for Offset, what readdir.Readdir returns for the sorted names *)
+Theorem dir_readdir_name_off s d off cnt es s' :
+  dir_readdir s d off cnt = (es, s') ->
+  map name_off es = map name_off (static_readdir (fun _ => zero_qid) (map fst (d_ents d)) off cnt).
+Proof.
+  unfold dir_readdir. destruct (d_stored d) as [st|].
+  - intros H. rewrite (remap_page_name_off _ _ _ _ _ H). apply static_readdir_name_off.
+  - destruct (getattr_all s (d_ents d)) as [qs s1]. intros H.
+    rewrite (remap_page_name_off _ _ _ _ _ H). apply static_readdir_name_off.
+Qed.
